@@ -173,3 +173,23 @@ def tier_seed(argv):
     ap.add_argument("--selftest", action="store_true")
     a = ap.parse_args(argv)
     return a
+
+
+def pmap(fn, items, procs=16, chunk=64):
+    """parallel map over forked workers (the code under test is imported in each worker from REPO)"""
+    import multiprocessing
+    if len(items) < 2 * chunk:
+        return [fn(x) for x in items]
+    ctx = multiprocessing.get_context("fork")
+    with ctx.Pool(procs) as pool:
+        return pool.map(fn, items, chunksize=chunk)
+
+
+def outcome_of(fn):
+    """run fn(); classify: ('ok', value) or ('raise', exception class name, message)"""
+    try:
+        return ("ok", fn())
+    except BaseException as e:  # noqa
+        if isinstance(e, (KeyboardInterrupt, SystemExit)):
+            raise
+        return ("raise", type(e).__name__, str(e)[:200])
